@@ -315,7 +315,14 @@ def wrapper_delegation():
             out[kind] = "first-fit"
             continue
         src = ast.unparse(fn)
-        if any(isinstance(n, ast.Raise) for n in ast.walk(fn)) and not any(isinstance(n, ast.Return) for n in ast.walk(fn)):
+        loop_returns = [r for l in ast.walk(fn) if isinstance(l, ast.For) and isinstance(l.target, ast.Name)
+                        for r in ast.walk(l) if isinstance(r, ast.Return) and isinstance(r.value, ast.Call)
+                        and isinstance(r.value.func, ast.Attribute) and r.value.func.attr == "serialize"
+                        and isinstance(r.value.func.value, ast.Name) and r.value.func.value.id == l.target.id]
+        if loop_returns:
+            # `for field in <options>: ... return field.serialize(value)`: the option is chosen by the value
+            out[kind] = "first-fit"
+        elif any(isinstance(n, ast.Raise) for n in ast.walk(fn)) and not any(isinstance(n, ast.Return) for n in ast.walk(fn)):
             out[kind] = "raises"
         elif "_not_nonefield" in src:
             init = _find(tree, cls, "__init__")
